@@ -513,6 +513,14 @@ def run_case(prop, name, h, timeout_ms=30000, max_paths=400, allow_exceptions=()
             if os.environ.get('VERIF_DEBUG'):
                 traceback.print_exception(type(p.value), p.value, p.value.__traceback__)
             r, mdl = solve.check_sat(p.pc + base + [solve.MARGIN == 0], timeout_ms)
+            if r == 'sat' and ints:
+                # feasible over the reals: is it feasible with genuine integers (linearised)?
+                lin, nnl = solve.abstract_nonlinear(symx.intify(p.pc + base + [solve.MARGIN == 0], ints))
+                linpc = [f for f in p.pc if solve.abstract_nonlinear([f])[1] == 0]
+                win = symx.intify(symx.int_windows(linpc, ints), ints) if len(ints) <= 24 else []
+                r2, _ = solve.check_sat(lin + win, timeout_ms)
+                if r2 == 'unsat':
+                    r = 'unsat'
             if r == 'sat':
                 _try_candidates(res, h, m.inputs, p.pc + base, z3.BoolVal(True),
                                 f'unexpected-exception {tb[:160]}', None, timeout_ms, prop, ints, getattr(m, 'pos_terms', ()), getattr(m, 'int_hi', ()))
